@@ -10,7 +10,7 @@ PROPERTY_FILES = ["DVP/Properties/C11.lean"]
 RULE = ("all 16 implicit methods x z = h*lambda in the closed left half-plane with |z| from 1e-3 to 1e8 (real decay and oscillatory-damped "
         "2x2 blocks, on and near the imaginary axis, either sign of h consistent with decay): one step of the real integrator on "
         "y' = lambda y (user Jacobian supplied) vs the stability function R(z) = P/Q of the generated certificate evaluated exactly, and "
-        "|y1| <= |y0|. non-trivial = |z| >= 1 or complex z; distinct by (method, z)")
+        "|y1| <= |y0|; the same through the public __call__ (retries after Newton failures) on stiff 2x2 blocks. non-trivial = |z| >= 1 or complex z; distinct by (method, z)")
 ASSUMPTIONS = ["the computed step agrees with R(z) to the nonlinear-solver tolerance (stage solve at 1e-7, comparison at 2e-5)"]
 
 
@@ -29,9 +29,37 @@ def one_step(cls, lam, h):
     return complex(y1[0], y1[1]), ok
 
 
+def call_block(ctx, rng, lines, cases):
+    """through the public __call__ (first attempt, Newton failures, retries): whatever the integrator ACCEPTS on a stiff 2x2 block must
+    not grow and must be the stability function at the step actually taken; refusing the step (FailedToMeetTolerances) is allowed"""
+    lams = [complex(-1e4, 1e4), complex(-100.0, 0.0), complex(-1.0, 1e6), complex(-1e6, 0.0), complex(-30.0, 400.0), complex(-1e3, -3e3)]
+    for cls in I.implicit_methods():
+        for lam in (lams if not ctx.quick() else [lams[i] for i in sorted(rng.sample(range(len(lams)), 3))]):
+            a, b = lam.real, lam.imag
+            L = np.array([[a, -b], [b, a]])
+            f = DS.DiffRHS(lambda t, y: L @ y)
+            f.jac = lambda t, y: L
+            integ = cls((2,), dtype=np.float64, rtol=1e-7, atol=1e-7)
+            y0 = np.array([1.0, 0.0])
+            try:
+                new_dt, (dT, dY) = integ(f, np.float64(0.0), y0.copy(), {}, np.float64(1.0))
+            except de.exception_types.FailedToMeetTolerances:
+                ctx.count("call:refused")
+                continue
+            except Exception as e:
+                ctx.count("call:exception:" + type(e).__name__)
+                continue
+            y1 = complex(*(y0 + np.array(dY)))
+            zr, zi = Fr(lam.real) * Fr(float(dT)), Fr(lam.imag) * Fr(float(dT))
+            lines.append("stab %s %s %s" % (cls.__name__, q(zr), q(zi)))
+            cases.append((cls.__name__, "through-call", complex(float(zr), float(zi)), float(dT), y1))
+            ctx.count("call:accepted")
+
+
 def run(ctx):
     rng = ctx.rng
     lines, cases = [], []
+    call_block(ctx, rng, lines, cases)
     reps = 10 if ctx.quick() else 60
     for cls in I.implicit_methods():
         for rep in range(reps):
